@@ -383,9 +383,12 @@ Definition check_C09 (c : case) : Z :=
 Definition check_C10 (c : case) : Z :=
   match c_op c, c_ints c with
   | Op_dt_set_offset, [d; n; o; o2] =>
-      let mo := obs_of (fun v => OOk [dt_days v; dt_nanos v; dt_off v; dt_off v] []) (dt_set_offset (mkDT d n o) o2) in
+      let v0 := mkDT d n o in
+      let mo := obs_of (fun v => OOk [dt_days v; dt_nanos v; dt_off v; dt_off v; cmp_code (Z.compare (dt_as_nanos v) (dt_as_nanos v0)); b2z (dt_as_nanos v =? dt_as_nanos v0);
+                                      dt_timestamp v - dt_timestamp v0; dt_nanos_since v v0] []) (dt_set_offset v0 o2) in
+      (* same stored instant, new offset; compares Equal and == to the original, same timestamp, zero difference *)
       let spec := if inst_in_rangeb (inst d n + o2 * NANOS_PER_SEC)
-                  then obs_eqb (OOk [d; n; o2; o2] []) (c_out c) else out_is_panic (c_out c) in
+                  then obs_eqb (OOk [d; n; o2; o2; 0; 1; 0; 0] []) (c_out c) else out_is_panic (c_out c) in
       verdict (obs_eqb mo (c_out c)) spec
   | Op_dt_as_offset, [d; n; o; o2] =>
       let mo := obs_of (fun v => OOk [dt_days v; dt_nanos v; dt_off v; dt_off v] []) (dt_as_offset (mkDT d n o) o2) in
